@@ -33,7 +33,7 @@ Callback(r, n, ret, cls) ==
     /\ r \in Ranks /\ st[r].pc = "run" /\ st[r].k < Len(run.plan)
     /\ st[r].c = Share(run.plan[st[r].k + 1], r)              \* after all calls of the iteration, not before
     /\ n = run.n0 + st[r].k + 1                               \* exactly the results so far
-    /\ run.builtin => (ret = Continue(run.targetPos, cls))
+    /\ run.builtin => (cls = "edge" \/ ret = Continue(run.targetPos, cls))   \* ("edge": within rounding of the target - either)
     /\ st' = [st EXCEPT ![r] = [k |-> @.k + 1, c |-> 0, pc |-> IF ret THEN "run" ELSE "done"]]
     /\ UNCHANGED run
 
